@@ -57,6 +57,23 @@ theorem C05_distance_exact (shape : List Nat) (bw : Array Int) (p : List Int)
   refine ⟨fun q hq hb => by rw [hval]; exact hmin q hq hb, unravelI shape n, hoin, ?_, hval⟩
   rw [horav]; exact hbn
 
+/-- **C05-T2c (the passes use the 1-D kernel).** The value a pass writes at a pixel is the entry of
+`dt1d` (the model of `dist_transform` that the correspondence check compares with the native
+`_distance.dt` on arbitrary sampled lines) for the line through that pixel: by T1 it is
+`min_t (p_ax − t)² + F(p[ax := t])`. -/
+theorem C05_pass_is_dt1d (fo : Img Int × Img Int) (ax : Nat) (p : List Int)
+    (hp : inside fo.1.shape p = true) (hax : ax < fo.1.shape.length) :
+    (passCoord fo ax).1.getD p 0 = (dt1d (lineOf fo.1 p ax)).getD (p.getD ax 0).toNat 0 ∧
+    (passCoord fo ax).1.getD p 0 = minPlus1d (lineOf fo.1 p ax) (p.getD ax 0).toNat := by
+  obtain ⟨h0, h1⟩ := inside_getD fo.1.shape p ax hp hax
+  have hq : (p.getD ax 0).toNat < (lineOf fo.1 p ax).size := by rw [lineOf_size]; omega
+  have hv : (passCoord fo ax).1.getD p 0 =
+      valueAt (lineOf fo.1 p ax) (p.getD ax 0).toNat (ownerAt (lineOf fo.1 p ax) (p.getD ax 0).toNat) := by
+    simp only [passCoord]; rw [tabulate_getD _ _ p 0 hp]
+  refine ⟨by rw [hv, dt1d_getD _ _ hq], ?_⟩
+  rw [hv, ← dt1d_getD _ _ hq, C05_dt1d_lower_envelope]
+  exact map_range_getD _ _ _ hq
+
 /-- **C05-T2a (0 on the background).** -/
 theorem C05_distance_background_zero (shape : List Nat) (bw : Array Int) (p : List Int)
     (hp : inside shape p = true) (hb : bw.getD (ravelI shape p) 0 = 0) :
